@@ -170,6 +170,8 @@ impl Caret {
     }
 
     pub fn up(&mut self, buf: &mut Buffer, current_layer: usize, num: i32) {
+        // moving up by more rows than the screen has scrolls the margin region empty and no further
+        let num = num.min(buf.terminal_state.get_height());
         self.pos.y = self.pos.y.saturating_sub(num);
         self.check_scrolling_on_caret_up(buf, current_layer, false);
         buf.terminal_state.limit_caret_pos(buf, self);
